@@ -10,7 +10,7 @@ def run(tier, seed, replay=None):
     ck.add_tlc("AdSchema", r, "enumeration of every advertisement / entry-chunk shape; store laws on the axiomatised codec")
     rep = vlib.run_harness(binary, ["c13", "-cases", os.path.join(r.workdir, "c13_cases.ndjson"), "-chunks", os.path.join(r.workdir, "c13_chunks.ndjson"),
                                     "-fuzz-every", "40" if tier == "quick" else "1", "-seed", str(seed)], timeout=7000)
-    if rep.get("extra", {}).get("read_error") or rep["inconclusive"]:
+    if rep.get("extra", {}).get("read_error") or (rep["inconclusive"] and not rep["divergences"]):
         raise vlib.Infra("c13 harness: %s" % rep.get("extra"))
     ck.add_report(rep)
     ck.cov["rule"] = ("one case per shape enumerated by TLC (optional previous link / extended providers / next link present or absent, 0..2 addresses and extended "
